@@ -15,13 +15,13 @@ from common import NCPU, Machinery, Scratch, nucs_env, read_ndjson, run_workers,
 # focus -> knobs of the item generator
 FOCUS = {
     "C01": dict(solo=True, branching=True, modes=["solve", "solve", "min", "max"], ca=None),
-    "C02": dict(solo=True, branching=True, modes=["solve"], ca=None, reorder=True, allcfg=True),
+    "C02": dict(solo=True, branching=True, modes=["solve"], ca=None, reorder=True, allcfg=True, decision_orders=True),
     "C03": dict(modes=["min", "max"], ca=None, allvars=True),
-    "C04": dict(modes=["solve", "solve", "min"], ca=None, flavours=["circuit", "alias", "alias", "int", "bool"]),
+    "C04": dict(decision_orders=True, modes=["solve", "solve", "min"], ca=None, flavours=["circuit", "alias", "alias", "int", "bool"]),
     "C07": dict(solo=True, modes=["solve", "solve", "min", "max"], ca=None, flavours=["int", "int", "bool", "alias"]),
     "C08": dict(modes=["solve", "solve", "min", "max"], ca=0, flavours=["int", "int", "bool", "circuit", "alias"]),
     "C09": dict(branching=True, modes=["solve", "solve", "min"], ca=None, allcfg=True),
-    "C10": dict(modes=["solve", "solve", "min", "max"], ca=1),
+    "C10": dict(modes=["solve", "solve", "min", "max"], ca=1, decision_orders=True),
     "C17": dict(modes=["solve", "solve", "min", "max"], ca=None, limits=True),
     "C16": dict(modes=["solve", "min"], ca=None),
     "C19": dict(modes=["solve", "solve", "min"], ca=None, heights=[1, 2, 2, 3, 3, 4, 5]),
@@ -149,10 +149,43 @@ def solo_items(tier: str, seed: int, focus: str):
     return out
 
 
+def decision_order_items(tier: str, seed: int, focus: str):
+    """Systematic: every domain is a decision domain, LISTED IN EVERY ORDER (all permutations of 3, a rotating sample of
+    the 24 permutations of 4), with one domain instantiated from the start (each position, or none), under shaving and
+    plain bound consistency.  The order of the list is configuration, not meaning: same solutions, same termination."""
+    import itertools
+    knobs = FOCUS[focus]
+    out = []
+    k = 0
+    for nd in (3, 4):
+        perms = list(itertools.permutations(range(nd)))
+        for inst in [None] + list(range(nd)):
+            doms = [[1, 1] if d == inst else [0, 2] for d in range(nd)]
+            free = [d for d in range(nd) if d != inst]
+            sets = [[{"vars": list(range(nd)), "alg": "affine_leq", "params": [1] * nd + [2 * nd]}],
+                    [{"vars": free, "alg": "alldifferent", "params": []},
+                     {"vars": list(range(nd)), "alg": "affine_geq", "params": [1] * nd + [2]}]]
+            for props in sets:
+                P = {"doms": doms, "vidx": list(range(nd)), "voff": [0] * nd, "props": props}
+                chosen = perms if nd == 3 or tier == "thorough" else [perms[(seed + k + 5 * j) % len(perms)] for j in range(6)] + [perms[-1]]
+                for perm in chosen:
+                    k += 1
+                    cas = [knobs["ca"]] if knobs.get("ca") is not None else ([1, 0] if tier == "thorough" or k % 3 == 0 else [1])
+                    for ca in cas:
+                        mode = knobs["modes"][k % len(knobs["modes"])]
+                        it = {"P": P, "cfg": {"ca": ca, "vh": k % 3, "dh": k % 4, "height": 64, "decision": list(perm)}, "mode": mode}
+                        if mode != "solve":
+                            it["var"] = k % nd
+                        out.append(it)
+    return out
+
+
 def build_items(tier: str, seed: int, focus: str, n: int | None = None):
     items = _random_items(tier, seed, focus, n)
     if n is None:
         items += systematic_items(tier, seed, focus)
+        if FOCUS[focus].get("decision_orders"):
+            items += decision_order_items(tier, seed, focus)
         if "circuit" in (FOCUS[focus].get("flavours") or ["circuit"]):
             items += circuit_items(tier, seed, focus)
         if FOCUS[focus].get("solo"):
